@@ -3,17 +3,7 @@
 From SF Require Import Base.Prelude Core.Events.
 Open Scope Z_scope.
 
-Inductive ref_result :=
-| RValue (v : cvalue) (rest : bytes)
-| RUnsupported            (* well-formed so far, but outside the supported subset *)
-| RTruncated              (* input ended inside an item *)
-| RMalformed.             (* not well-formed CBOR *)
-
 Inductive arg := ArgVal (n : Z) (rest : bytes) | ArgIndef (rest : bytes) | ArgTrunc | ArgBad.
-
-Definition take (n : Z) (b : bytes) : option (bytes * bytes) :=
-  if (n <? 0) then None else
-  if (zlen b <? n) then None else Some (firstn (Z.to_nat n) b, skipn (Z.to_nat n) b).
 
 (* additional information -> argument (RFC 7049 2.1) *)
 Definition read_arg (minor : Z) (r : bytes) : arg :=
